@@ -9,6 +9,10 @@
 //! the era prefix, must equal what pallas-traverse reports. A hash taken over re-encoded bytes
 //! differs on a non-canonical mutant and is reported with the mutant as replay.
 //!
+//! DETACH: for every artefact and accepted mutant the KeepRaw values are also detached
+//! (`to_owned()`, `Cow::Owned` header variants): same hash, and encoding replays the wire bytes;
+//! a stand-alone header's `cbor()` must be exactly the item on the wire.
+//!
 //! case := CBlock bs hh ids | CTx era bs id datums scripts | CHeader kind bs h
 //!       | CDatum bs h | CScript bs h            (only inputs pallas accepts)
 #[path = "cbor_tree/mod.rs"]
@@ -17,7 +21,8 @@ use cbor_tree::{Item, Kind};
 use pallas_codec::minicbor;
 use pallas_codec::utils::KeepRaw;
 use pallas_crypto::hash::Hasher;
-use pallas_primitives::{alonzo, conway};
+use pallas_primitives::{alonzo, babbage, byron, conway};
+use std::borrow::Cow;
 use pallas_traverse::{Era, MultiEraBlock, MultiEraHeader, MultiEraTx, OriginalHash};
 use verif_harness::*;
 
@@ -72,6 +77,51 @@ fn expect_tx(b: &[u8], root: &Item, byron: bool) -> Option<TxObs> {
     Some(o)
 }
 
+/// The detach step: `KeepRaw::to_owned()` (raw bytes become an owned buffer) must not change
+/// the identity hash, and encoding the detached value must replay exactly the wire bytes.
+/// Returns (what, detail) for every violation.
+macro_rules! detach {
+    ($out:expr, $what:expr, $k:expr) => {{
+        let k = $k;
+        let attached = k.original_hash().to_vec();
+        let raw = k.raw_cbor().to_vec();
+        let det = k.clone().to_owned();
+        let h2 = det.original_hash().to_vec();
+        if h2 != attached { $out.push((format!("{}-hash", $what), format!("attached={} detached={} wire={}", hex(&attached), hex(&h2), hex(&raw[..raw.len().min(600)])))); }
+        match minicbor::to_vec(&det) {
+            Ok(enc) if enc == raw => {}
+            Ok(enc) => $out.push((format!("{}-encode", $what), format!("wire={} encoded={}", hex(&raw[..raw.len().min(600)]), hex(&enc[..enc.len().min(600)])))),
+            Err(_) => $out.push((format!("{}-encode", $what), "encode error".to_string())),
+        }
+    }};
+}
+
+fn detach_tx(tx: &MultiEraTx, out: &mut Vec<(String, String)>) {
+    match tx {
+        MultiEraTx::AlonzoCompatible(x, _) => detach!(out, "tx-body", &x.transaction_body),
+        MultiEraTx::Babbage(x) => detach!(out, "tx-body", &x.transaction_body),
+        MultiEraTx::Conway(x) => detach!(out, "tx-body", &x.transaction_body),
+        MultiEraTx::Byron(x) => detach!(out, "byron-tx", &x.transaction),
+        _ => {}
+    }
+    for d in tx.plutus_data() { detach!(out, "datum", d); }
+    for s in tx.native_scripts() { detach!(out, "native-script", s); }
+}
+
+fn detach_header(h: &MultiEraHeader, out: &mut Vec<(String, String)>) {
+    let attached = h.hash().to_vec();
+    let (owned, what): (MultiEraHeader, &str) = match h {
+        MultiEraHeader::EpochBoundary(x) => { detach!(out, "ebb-header", &**x); (MultiEraHeader::EpochBoundary(Cow::Owned((**x).clone().to_owned())), "ebb-header") }
+        MultiEraHeader::Byron(x) => { detach!(out, "byron-header", &**x); (MultiEraHeader::Byron(Cow::Owned((**x).clone().to_owned())), "byron-header") }
+        MultiEraHeader::ShelleyCompatible(x) => { detach!(out, "header", &**x); (MultiEraHeader::ShelleyCompatible(Cow::Owned((**x).clone().to_owned())), "header") }
+        MultiEraHeader::BabbageCompatible(x) => { detach!(out, "header", &**x); (MultiEraHeader::BabbageCompatible(Cow::Owned((**x).clone().to_owned())), "header") }
+        _ => return,
+    };
+    let h2 = owned.hash().to_vec();
+    if h2 != attached { out.push((format!("{}-owned-variant-hash", what), format!("attached={} owned={}", hex(&attached), hex(&h2)))); }
+    if owned.cbor() != h.cbor() { out.push((format!("{}-owned-variant-cbor", what), "cbor() differs".to_string())); }
+}
+
 #[derive(Clone, Copy, PartialEq, Debug)]
 enum What { Block, Tx(Era), Header(u8), Datum, Script }
 
@@ -102,11 +152,15 @@ impl Ctx {
                 let got = guard(|| {
                     let blk = MultiEraBlock::decode(b).map_err(|e| e.to_string())?;
                     let txs = blk.txs();
-                    Ok((blk.hash().to_vec(), blk.header().hash().to_vec(), txs.iter().map(observe_tx).collect::<Vec<_>>()))
+                    let mut det = vec![];
+                    detach_header(&blk.header(), &mut det);
+                    for t in &txs { detach_tx(t, &mut det); }
+                    Ok((blk.hash().to_vec(), blk.header().hash().to_vec(), txs.iter().map(observe_tx).collect::<Vec<_>>(), det))
                 });
-                let (hh, hh2, txs) = match got { Out::Ok(v) => v, Out::Err(_) => return false,
+                let (hh, hh2, txs, det) = match got { Out::Ok(v) => v, Out::Err(_) => return false,
                     Out::Panic(p) => { self.fail("panic/block", a, muts, b, format!("panic={}", p)); return false } };
                 self.checked += 1;
+                for (w, d) in det { self.fail(&format!("detached/{}", w), a, muts, b, d); }
                 let Some(era) = root.at(0).and_then(|x| x.as_uint()) else { self.fail("scan/block", a, muts, b, "no era tag".into()); return true };
                 let Some(inner) = root.at(1) else { return true };
                 let Some(hdr) = inner.at(0) else { return true };
@@ -142,10 +196,11 @@ impl Ctx {
                 true
             }
             What::Tx(era) => {
-                let got = guard(|| { let tx = MultiEraTx::decode_for_era(era, b).map_err(|e| e.to_string())?; Ok(observe_tx(&tx)) });
-                let g = match got { Out::Ok(v) => v, Out::Err(_) => return false,
+                let got = guard(|| { let tx = MultiEraTx::decode_for_era(era, b).map_err(|e| e.to_string())?; let mut det = vec![]; detach_tx(&tx, &mut det); Ok((observe_tx(&tx), det)) });
+                let (g, det) = match got { Out::Ok(v) => v, Out::Err(_) => return false,
                     Out::Panic(p) => { self.fail("panic/tx", a, muts, b, format!("panic={}", p)); return false } };
                 self.checked += 1;
+                for (w, d) in det { self.fail(&format!("detached/{}", w), a, muts, b, d); }
                 let Some(e) = expect_tx(b, &root, era == Era::Byron) else { self.fail("scan/tx", a, muts, b, "scan failed".into()); return true };
                 self.cmp_tx(a, muts, b, era_name(era), 0, &g, &e);
                 if !self.oracle_only && b.len() <= 2600 {
@@ -157,10 +212,13 @@ impl Ctx {
             }
             What::Header(kind) => {
                 let (t, st) = match kind { 0 => (0u8, Some(0u8)), 1 => (0, Some(1)), 2 => (1, None), _ => (6, None) };
-                let got = guard(|| { let h = MultiEraHeader::decode(t, st, b).map_err(|e| e.to_string())?; Ok(h.hash().to_vec()) });
-                let g = match got { Out::Ok(v) => v, Out::Err(_) => return false,
+                let got = guard(|| { let h = MultiEraHeader::decode(t, st, b).map_err(|e| e.to_string())?; let mut det = vec![]; detach_header(&h, &mut det); Ok((h.hash().to_vec(), h.cbor().to_vec(), det)) });
+                let (g, raw, det) = match got { Out::Ok(v) => v, Out::Err(_) => return false,
                     Out::Panic(p) => { self.fail("panic/header", a, muts, b, format!("panic={}", p)); return false } };
                 self.checked += 1;
+                for (w, d) in det { self.fail(&format!("detached/{}", w), a, muts, b, d); }
+                // the raw bytes the header keeps are exactly the item that was on the wire
+                if raw != root.span(b) { self.fail(&format!("header-raw/kind{}", kind), a, muts, b, format!("cbor() has {} bytes, the header item on the wire has {}: kept={} wire={}", raw.len(), root.span(b).len(), hex(&raw), hex(root.span(b)))); }
                 let pfx: &[u8] = match kind { 0 => &[0x82, 0x00], 1 => &[0x82, 0x01], _ => &[] };
                 let want = h256(pfx, root.span(b));
                 if g != want { self.fail(&format!("header-hash/kind{}", kind), a, muts, b, format!("reported={} expected={}", hex(&g), hex(&want))); }
@@ -170,20 +228,26 @@ impl Ctx {
                 true
             }
             What::Datum => {
-                let got = guard(|| { let d: KeepRaw<alonzo::PlutusData> = minicbor::decode(b).map_err(|e| e.to_string())?; Ok(d.original_hash().to_vec()) });
-                let g = match got { Out::Ok(v) => v, Out::Err(_) => return false,
+                let got = guard(|| { let d: KeepRaw<alonzo::PlutusData> = minicbor::decode(b).map_err(|e| e.to_string())?; let mut det = vec![]; detach!(det, "datum", &d);
+                    if d.raw_cbor() != root.span(b) { det.push(("datum-raw".to_string(), format!("kept={} wire={}", hex(d.raw_cbor()), hex(root.span(b))))); }
+                    Ok((d.original_hash().to_vec(), det)) });
+                let (g, det) = match got { Out::Ok(v) => v, Out::Err(_) => return false,
                     Out::Panic(p) => { self.fail("panic/datum", a, muts, b, format!("panic={}", p)); return false } };
                 self.checked += 1;
+                for (w, d) in det { self.fail(&format!("detached/{}", w), a, muts, b, d); }
                 let want = h256(&[], root.span(b));
                 if g != want { self.fail("datum-hash/standalone", a, muts, b, format!("reported={} expected={}", hex(&g), hex(&want))); }
                 if !self.oracle_only && b.len() <= 2600 { self.cases.push((format!("datum/{}", tag), format!("(CDatum {} {})", coq_bytes(b), coq_bytes(&g)), b.len())); }
                 true
             }
             What::Script => {
-                let got = guard(|| { let d: KeepRaw<alonzo::NativeScript> = minicbor::decode(b).map_err(|e| e.to_string())?; Ok(d.original_hash().to_vec()) });
-                let g = match got { Out::Ok(v) => v, Out::Err(_) => return false,
+                let got = guard(|| { let d: KeepRaw<alonzo::NativeScript> = minicbor::decode(b).map_err(|e| e.to_string())?; let mut det = vec![]; detach!(det, "native-script", &d);
+                    if d.raw_cbor() != root.span(b) { det.push(("native-script-raw".to_string(), format!("kept={} wire={}", hex(d.raw_cbor()), hex(root.span(b))))); }
+                    Ok((d.original_hash().to_vec(), det)) });
+                let (g, det) = match got { Out::Ok(v) => v, Out::Err(_) => return false,
                     Out::Panic(p) => { self.fail("panic/script", a, muts, b, format!("panic={}", p)); return false } };
                 self.checked += 1;
+                for (w, d) in det { self.fail(&format!("detached/{}", w), a, muts, b, d); }
                 let want = h224(&[0], root.span(b));
                 if g != want { self.fail("native-script-hash/standalone", a, muts, b, format!("reported={} expected={}", hex(&g), hex(&want))); }
                 if !self.oracle_only && b.len() <= 2600 { self.cases.push((format!("native-script/{}", tag), format!("(CScript {} {})", coq_bytes(b), coq_bytes(&g)), b.len())); }
@@ -311,6 +375,25 @@ fn main() {
         if !ctx.check(a, &a.bytes, &[]) { base_rejected += 1; if !a.name.contains('#') { emit_sample(&format!("not accepted by pallas: {}", a.name)); } continue; }
         let big = a.bytes.len() > 100_000;
         let root0 = cbor_tree::parse(&a.bytes).unwrap();
+        // small artefacts (headers, datums, scripts, txs): EVERY array / map toggled between the definite and
+        // the indefinite form, one node at a time (covers e.g. the empty map at the tail of an EBB header)
+        let sys_cap = match a.what { What::Header(_) => 60, What::Datum | What::Script => 20, What::Tx(_) if a.bytes.len() <= 1500 => if thorough { 40 } else { 10 }, _ => 0 };
+        if sys_cap > 0 {
+            for b in cbor_tree::single_toggles(&root0, sys_cap) {
+                if b == a.bytes { continue; }
+                tried += 1;
+                let ok = ctx.check(a, &b, &["toggle-indef"]);
+                if ok { accepted += 1; }
+                let e = by_mut.entry("toggle-indef").or_insert((0, 0)); e.0 += 1; if ok { e.1 += 1; }
+            }
+            // and every head written non-minimally (8 argument bytes), one node at a time
+            for b in cbor_tree::single_widens(&root0, sys_cap) {
+                tried += 1;
+                let ok = ctx.check(a, &b, &["widen-head"]);
+                if ok { accepted += 1; }
+                let e = by_mut.entry("widen-head").or_insert((0, 0)); e.0 += 1; if ok { e.1 += 1; }
+            }
+        }
         for _ in 0..(if big { 2 } else { per }) {
             let mut root = root0.clone();
             let k = 1 + rng.below(3) as usize;
